@@ -40,6 +40,22 @@ TANDEM_CANDIDATES = ['*clefG2', '*clefF4', '*clefC3', '*clefC1', '*clefGv2', '*c
                      '*S/sic', '*S/ossia', '*ela', '*xywh-1:10,20,30,40', '*', '.']
 
 
+# ---- pinned members: everything below is part of the **kern vocabulary named in the grammar file and was accepted, with the class
+# stated, by the parser of the pinned tree.  A member the CURRENT parser no longer gives that class is still generated (appended
+# after the members obtained by probing, so that selector indices do not move on an unchanged tree): the obligations then report
+# the lost / re-classified member as a violation of C01 / C03 instead of silently checking a smaller domain.
+DUR_PINNED = ['1', '2', '4', '8', '16', '32', '64', '3', '6', '12', '24', '0', '00', '3%2', '40', '128']
+ACC_PINNED = ['#', '-', 'n', '##', '--', '###', '---']
+DISP_PINNED = ['x', 'X', 'i', 'I', 'j', 'Z', 'y', 'yy', 'Y', 'YY']
+DEC_PINNED = DEC_CORE + DEC_ONLY_CORE + ['p', 'q', 'x', 'y', 'P', '.', '<', '>', '?', 'qq', 'yy', 'y@', 'xx', 'Ww', '[y', '&(', '&)', 'L<', 'J>', '[<', ']>', '_<', '??', 'yyy']
+REST_DEC_PINNED = REST_DEC_CORE + ['q', 'y', 'X', '.', '<', '>', 'qq', 'yy', 'y@', '&(', '&)', 'yyy']
+TANDEM_PINNED = [t for t in TANDEM_CANDIDATES if t != '*clefX']
+
+
+def with_pinned(current, pinned):
+    return list(current) + [m for m in pinned if m not in current]
+
+
 class Parser:
     """Thin wrapper: a fresh KernSpineImporter per token (parse outcomes must not depend on history: C12)."""
 
@@ -130,6 +146,8 @@ def classify(base='4c'):
         t = P.parse(s)
         if t is not None and t.encoding == s:
             out['tandem'][s] = [type(t).__name__, t.category.name]
+        elif s in TANDEM_PINNED:
+            out['tandem'][s] = ['(not accepted by the current parser)', '']
     out['parses'] = P.n
     return out
 
@@ -155,4 +173,6 @@ def classify_tandem():
         t = P.parse(s)
         if t is not None and t.encoding == s:
             out[s] = [type(t).__name__, t.category.name]
+        elif s in TANDEM_PINNED:
+            out[s] = ['(not accepted by the current parser)', '']
     return out
